@@ -2,7 +2,7 @@
 import core
 import gen
 from core import PANIC, Some
-from props.common import default_encode, default_decode, split_range
+from props.common import thorough_aux, default_encode, default_decode, split_range
 
 PROP = 'C07'
 BIN = 'c07'
@@ -150,3 +150,6 @@ REQUIRED = ['equal operands', 'differ only in the top bit', 'clamp with lo > hi 
 
 def floors(st, tier):
     return ['class %r never observed' % c for c in REQUIRED if st['classes'].get(c, 0) == 0]
+
+
+extra_passes = thorough_aux('props.c07', (), exh=True)
